@@ -168,6 +168,54 @@ def violations (k : Kind) (f : Option Fault) (body : Option Exc) (o : Out) : Lis
   (if codeOk then [] else ["exit-code"]) ++ (if rowOk then [] else ["db-unfinished"]) ++
   (if o.closed then [] else ["db-left-open"]) ++ (if o.finished then [] else ["run-not-finished"])
 
+/-! ### contention: another writer (a second gallia process that logs into the same `--db` file) holds sqlite's write lock
+
+  `DBHandler.connect` sets `PRAGMA busy_timeout`: a statement that needs the write lock waits that long for it.  The other
+  writer takes the lock (`BEGIN IMMEDIATE`) when the run enters one of its database phases and commits `hold` ms later. -/
+
+/-- what `DBHandler.connect` documents: `PRAGMA busy_timeout = 10000` (milliseconds) -/
+def BUSY_TIMEOUT_MS : Nat := 10000
+
+inductive Phase | insert | complete | disconnect
+  deriving DecidableEq, Repr, Inhabited
+
+def Phase.call : Phase → Call
+  | .insert => .insert
+  | .complete => .complete
+  | .disconnect => .disconnect
+
+structure Contention where
+  phase : Phase     -- the lock is taken when the run enters this call
+  hold : Nat        -- ... and released this many ms later
+  deriving DecidableEq, Repr, Inhabited
+
+/-- the statement takes sqlite's write lock (the implicit `BEGIN` of the sqlite3 module is deferred: it takes nothing) -/
+def Stmt.locks : Stmt → Bool
+  | .insertRow | .updateRow => true
+  | _ => false
+
+/-- index (among the awaited statements) of the first statement of the list that needs the write lock -/
+def firstLock : List Stmt → Nat → Option Nat
+  | [], _ => none
+  | s :: rest, i => if s.locks then some i else firstLock rest (if s.awaited then i + 1 else i)
+
+/-- what contention is to the run whose connection waits `timeout` ms for a lock: nothing when the lock is released in time,
+    otherwise "database is locked" (`sqlite3.OperationalError`) at the first statement of the phase that needs the lock -/
+def contentionFault (timeout : Nat) (c : Contention) : Option Fault :=
+  if c.hold < timeout then none else
+  match firstLock (stmts c.phase.call) 0 with
+  | some i => some ⟨c.phase.call, i, .raise⟩
+  | none => none
+
+/-- a run under contention, the connection's busy timeout being `timeout` ms (`fired` belongs to the injected faults) -/
+def runC (timeout : Nat) (k : Kind) (c : Contention) (body : Option Exc) : Out :=
+  { run k (contentionFault timeout c) body with fired := false }
+
+/-- what the property demands of a run under contention that lasts less than the documented busy timeout: what it demands of
+    the undisturbed run (the other writer goes away by itself: nothing refuses the write) -/
+def violationsC (k : Kind) (c : Contention) (body : Option Exc) (o : Out) : List String :=
+  if c.hold < BUSY_TIMEOUT_MS then violations k none body o else violations k (contentionFault 0 c) body o
+
 /-- the fault point at which `entry_point()` of the tree as it is breaks the property (known_findings.jsonl) -/
 def Fault.bad (f : Fault) : Bool :=
   match f.call, f.mode with
